@@ -21,8 +21,7 @@ Drift(r, fix) == r.st = "ok" /\ r.out # Model(r.desc, Lang(r.ctx), fix)
         an action, which makes the recursive-descent parsers several times slower there. ---- *)
 VARIABLES l, nbad, reps, seen, tally, nda, ndf
 Obs == ndJsonDeserialize("obs.ndjson")
-\* (the two transcriptions differ only where a non-finite float is printed)
-JudgeRec(r) == LET da == Drift(r, FALSE) IN [v |-> Verdict(r), da |-> da, df |-> IF DescNonFinite(r.desc) THEN Drift(r, TRUE) ELSE da]
+JudgeRec(r) == [v |-> Verdict(r), da |-> Drift(r, FALSE), df |-> Drift(r, TRUE)]     \* fix = FALSE: tree at 55cee7b; TRUE: after the four fixes
 Judged == Tup([x \in 1..Len(Obs) |-> JudgeRec(Obs[x])])
 Init == l = 1 /\ nbad = 0 /\ reps = <<>> /\ seen = {} /\ tally = <<>> /\ nda = 0 /\ ndf = 0
 Bump(tl, v) == IF \E x \in 1..Len(tl) : tl[x][1] = v
